@@ -1,5 +1,5 @@
 import Lean.Data.Json
-import FsicModel
+import FsicModel.Basic
 /-
 Line-protocol plumbing shared by all driver handlers.  One request per line: `<kind>\t<json>`; one reply line.
 Floats cross the boundary as IEEE-754 bit patterns (natural numbers), never as decimal text.
